@@ -28,8 +28,10 @@ git checkout -- evidence 2>/dev/null
 # leave the generated tables and the model in the state of /repo itself
 tools/setup.sh >/dev/null 2>&1
 # every corpus entry must pass on the unchanged tree; one that does not is dropped (and named)
+# (RESEED_VERIFY_NEW=1: only the entries of the seeds named on the command line)
 for f in corpus/*/*.json; do
   [ -f "$f" ] || continue
+  if [ -n "$RESEED_VERIFY_NEW" ]; then b=$(basename $f .json); case " ${names[*]} " in *" $b "*) ;; *) continue;; esac; fi
   pid=$(basename $(dirname $f))
   if ! timeout 300 ./check $pid --replay $f >/dev/null 2>&1; then echo "corpus entry $f fails on the unchanged tree: dropped"; rm -f $f; fi
 done
